@@ -807,7 +807,54 @@ def run(ctx, rep):
     rep.check(not bad, 'R-C09-5', 'state_read effect set', P.fn('state_read').file, 'effects reachable from state_read: %s' % sorted(eff), function='state_read', construct='write effect')
     rule_save_protocol(ctx, rep)
     stream_all_handles_rule(P, rep, 'R-C09-6m')
+    copies_compared_rule(P, rep, 'R-C09-8')
     rule_crc_tables(P, rep)
+
+
+READ_CALLS = {'read', 'pread', 'pread64', 'fread', 'mmap', 'mmap64', 'readv', 'preadv', 'fgets', 'fgetc', 'getc'}
+
+
+def copies_compared_rule(P, rep, rid):
+    """`after a successful command all copies are byte-identical`: a save that is killed (or fails) between two renames leaves copy 1
+    new and the others old -- allowed -- and the NEXT command must notice it, because only `need_write` makes sync / scrub write the
+    content again.  The loader looks at the other copies in a loop of state_read; whatever it decides there without reading a single
+    byte of the other copy (its size, its time) cannot tell an old copy from a new one of the same length (a scrub changes only
+    times, an in-place rewrite only hashes).  Rule: in that loop every path of one iteration either sets need_write, or passes a call
+    that reads the content of the other copy and a need_write store is reachable from that call."""
+    rep.rule(rid, 'state_read: each iteration of the loop over the other content copies sets need_write or reads bytes of that copy (with a need_write store depending on the read); a stat() alone does not prove a copy current', 1)
+    g = P.fn('state_read')
+    rep.analysed(g)
+    opens = list(g.calls('sopen_read'))
+    nw = [i for i in g.all_insts() if i.op == 'store' and g.expr(i.ops[1]).endswith('->need_write') and g.const_of(i.ops[0]) == 1]
+    cand = [(h, body) for h, body in g.loops.items() if not any(c.block in body for c in opens) and any(i.block in body for i in nw)]
+    if len(cand) != 1 or not opens:
+        raise AnalysisBroken('state_read: the loop over the other content copies (a loop without sopen_read that stores need_write) was not found: %d candidates' % len(cand))
+    h, body = cand[0]
+    cg = P.callgraph()
+    reads = []
+    for c in g.calls():
+        if c.block not in body or c.asm is not None:
+            continue
+        if c.callee in READ_CALLS:
+            reads.append(c)
+        elif c.callee_full and P.has(c.callee) and not P.fn(c.callee).decl:
+            if any(base(x) in READ_CALLS for x in P.reachable([c.callee_full], cg)) and c.callee not in ('log_fatal', 'log_error', 'log_tag', 'msg_progress'):
+                reads.append(c)
+    stops = {i.id for i in nw if i.block in body} | {c.id for c in reads}
+    t = g.term(h)
+    starts = [g.blocks[s_][0] for s_ in g.succ[h] if s_ in body]
+    r = g.reach(starts, stop=stops, include_start=True)
+    latches = [g.term(b) for b in body if h in g.succ[b] and b != h]
+    free = [l for l in latches if l.id in r]
+    used = any(any(i.id in g.reach([c], stop={g.blocks[h][0].id}) for i in nw if i.block in body) for c in reads)
+    ok = not free and (not reads or used)
+    if free:
+        det = 'an iteration can reach the next copy (line %s) without setting need_write and without reading a byte of the other copy (content reads in the loop: %s): an old copy of the same size as the new one, left by a save interrupted between two renames, stays old after every later successful command' % (free[0].line, [c.callee for c in reads] or 'none')
+    elif reads and not used:
+        det = 'the bytes read from the other copy by %s never lead to need_write' % reads[0].callee
+    else:
+        det = '%d need_write stores, content reads: %s' % (len([i for i in nw if i.block in body]), [c.callee for c in reads])
+    rep.check(ok, rid, 'state_read: an existing other copy is believed current only after its bytes were read', (free[0].loc() if free else t.loc()), det, function='state_read', construct='other copy not read')
 
 
 def stream_all_handles_rule(P, rep, rid):
